@@ -220,6 +220,14 @@ def write_coqproject():
 
 def coq_make(targets=None, jobs=16, timeout=1500):
     """(Re)build the development or given .vo targets. Returns (rc, output)."""
+    # fast path without the lock: nothing to (re)build for these targets (make -q only reads)
+    if targets and os.path.exists(os.path.join(COQ, 'Makefile')):
+        head = open(os.path.join(COQ, '_CoqProject.head')).read()
+        cur = os.path.join(COQ, '_CoqProject')
+        if os.path.exists(cur) and open(cur).read() == head + '\n'.join(coq_sources()) + '\n':
+            rc, out, _ = _run(['make', '-q'] + targets, 120, cwd=COQ)
+            if rc == 0:
+                return 0, 'up to date'
     with CoqLock():
         changed = write_coqproject()
         if changed or not os.path.exists(os.path.join(COQ, 'Makefile')):
